@@ -42,6 +42,12 @@ func runC28(c *core.Ctx, b core.Batch) {
 			}
 		}
 	}
+	if b.Cfg == "base" && b.N == 1 {
+		// dynamicpb over PRNG-generated schemas
+		dt := schemaDynTypes(c, 0x28, c.Scale(8, 80))
+		c.CountN("generated_schema_dynamic_types", int64(len(dt)))
+		types = append(types, dt...)
+	}
 	per := c.Scale(40, 400)
 	if b.Cfg == "race" {
 		per = c.Scale(4, 30)
